@@ -660,3 +660,93 @@ func init() {
 		c.Check(n >= 8, "commit verifier call sites found", "-", ">= 8", fmt.Sprintf("%d", n))
 	})
 }
+
+// ------------------------------------------------------------------ C07.R10
+// F56: the by-index verifiers (VerifyCommit, VerifyCommitLight) check slot i with the key of validator i. The
+// address written into the slot is not covered by any signature, yet it is what other code identifies the
+// signer by: MedianTime weighs each timestamp with the power of the validator found under the slot's
+// address (and skips unknown addresses), CommitToVoteSet rebuilds votes from it. "Each from a different member
+// of the given validator set" has to hold for the member the slot *names*: a slot is verified (and tallied)
+// only where its address is the address of the validator at its index.
+func init() {
+	register("C07", "R10", "K1", "by-index commit verification accepts a slot only if the address in it is the address of the validator at that index", 4, func(c *Ctx) {
+		w := c.W
+		for _, name := range []string{"ValidatorSet.VerifyCommit", "ValidatorSet.VerifyCommitLight"} {
+			f := c.fn("types", name)
+			if f == nil {
+				continue
+			}
+			fk := funcKey(f)
+			n := 0
+			for _, dc := range w.deepCallsTo(f, 2, "crypto#PubKey.VerifySignature") {
+				recv := w.exprWith(callRecv(dc.call), dc.sub)
+				m := regexp.MustCompile(`^(.*\.Validators\[(.*)\])\.PubKey$`).FindStringSubmatch(recv)
+				if !c.Check(m != nil, fk+" :: signature checked with the key of the validator at the slot's index", w.ipos(dc.site), "vals.Validators[idx].PubKey", "verified with "+recv) {
+					continue
+				}
+				n++
+				idx := regexp.QuoteMeta(m[2])
+				g := guardRe("the slot's address is that validator's address", `^true\(bytes\.Equal\(`+regexp.QuoteMeta(m[1])+`\.Address, .*\.Signatures\[`+idx+`\]\.ValidatorAddress\)\)$`)
+				// the guard may sit in the function or in the helper that holds the call
+				ok, why := c.ge().guarded(dc.call.Parent(), dc.call, g, 0)
+				if !ok && dc.call.Parent() != f {
+					ok, why = c.ge().guarded(f, dc.site, g, 0)
+				}
+				c.Check(ok, fk+" :: verify a slot <= "+g.Name, w.ipos(dc.site), "bytes.Equal(val.Address, commitSig.ValidatorAddress)", "a slot is verified and tallied whatever address it carries ("+why+"): the block time (median weighted by the addresses' power) and the reconstructed votes follow the unsigned address")
+			}
+			c.Check(n == 1, fk+" :: signature check found", w.pos(f.Pos()), "1", fmt.Sprintf("%d", n))
+		}
+	})
+	alias("C06", "R14", "C07", "R10", "block time is the median weighted by the power found under the commit's addresses: the addresses must be the signers'")
+}
+
+// ------------------------------------------------------------------ C07.R11, R12
+func init() {
+	// F58: the trust fraction is a pair of uint64; the verifier computes the power needed in int64. A
+	// numerator or denominator of 2^63 or more turns negative in the conversion and so does the power
+	// needed — everything is "enough". The conversions are reached only for values that fit.
+	register("C07", "R11", "K1+K10", "the trusting verifier converts the trust fraction to int64 only after bounding numerator and denominator by MaxInt64", 2, func(c *Ctx) {
+		w := c.W
+		f := c.fn("types", "ValidatorSet.VerifyCommitLightTrusting")
+		if f == nil {
+			return
+		}
+		fk := funcKey(f)
+		n := 0
+		for _, call := range w.callsTo(f, "types#safeMul") {
+			n++
+			tl := paramName(f, 3)
+			c.guards(f, call, fk+" :: compute the power needed", 0,
+				guardCmp("numerator fits int64", q(tl)+`\.Numerator`, "<=", "9223372036854775807"),
+				guardCmp("denominator fits int64", q(tl)+`\.Denominator`, "<=", "9223372036854775807"),
+				guardCmp("denominator not zero", q(tl)+`\.Denominator`, "!=", "0"))
+		}
+		c.Check(n == 1, fk+" :: computation of the power needed found", w.pos(f.Pos()), "1", fmt.Sprintf("%d", n))
+	})
+	// F57: what goes into the sign bytes must be encodable, or building them panics inside every verifier:
+	// the block id (canonicalised through BlockIDFromProto, which refuses hashes of the wrong size) and each
+	// non-absent slot's timestamp (encoded as a protobuf Timestamp, which has a range). The protobuf decoders
+	// refuse both, JSON does not, and light-client providers deliver JSON. The commit's own ValidateBasic —
+	// which every verification entry point runs first — is where both are established.
+	register("C07", "R12", "K1", "Commit.ValidateBasic establishes that the block id and every present timestamp can be put into sign bytes (no panic in the verifiers)", 2, func(c *Ctx) {
+		w := c.W
+		if f := c.fn("types", "Commit.ValidateBasic"); f != nil {
+			fk := funcKey(f)
+			n := 0
+			for _, call := range w.callsTo(f, "types#CommitSig.ValidateBasic") {
+				n++
+				c.guards(f, call, fk+" :: validate the slots of a commit for a block", 0, guardRe("the block id is well formed", `^nil\(\w+\.BlockID\.ValidateBasic\(\)\)$`))
+			}
+			c.Check(n == 1, fk+" :: slot validation found", w.pos(f.Pos()), "1", fmt.Sprintf("%d", n))
+		}
+		if f := c.fn("types", "CommitSig.ValidateBasic"); f != nil {
+			fk := funcKey(f)
+			recv := paramName(f, 0)
+			g := guardAny("the slot is absent, or its timestamp can be encoded",
+				guardCmp("absent", q(recv)+`\.BlockIDFlag`, "==", fmt.Sprint(c.mustConst("types", "BlockIDFlagAbsent"))),
+				guardRe("encodable", `^nil\(github\.com/gogo/protobuf/types\.TimestampProto\(`+q(recv)+`\.Timestamp\)#1\)$`))
+			c.Check(c.ge().ensures(f, g, 2), fk+" ensures "+g.Name, w.pos(f.Pos()), "success only behind this", "a present slot with a time outside the protobuf range passes validation and panics when its sign bytes are built")
+		}
+	})
+	alias("C09", "R9", "C07", "R12", "headers from providers arrive as JSON: what the light client verifies must have been made safe to verify")
+}
